@@ -6,8 +6,9 @@ FULL STATEMENT.  Every tree that `Evaluator.evaluate_individual` yields (and so 
 extra constraint and every computed repetition bound under an evaluator that shares no state with the
 search; a constraint whose evaluation raises is not satisfied.
 
-What is proved here (model: `Model/Constraint.lean` for `fitness()`, `Model/EmitExact.lean` for
-`_evaluate_constraints` / the acceptance test):
+What is proved here (models: `Model/Constraint.lean` for `fitness()`; `Model/EmitExact.lean` for
+`_evaluate_constraints` / the acceptance test in exact arithmetic; `Model/Emit.lean` + `Model/EmitFloat.lean`
++ `Generated/Fitness.lean` over `Model/Float53.lean` for what the code computes in binary64):
 
 * `C02_fitness_one_iff_success`   for every combinator: the number `fitness()` returns lies in [0,1] and is
                                   1 exactly when `success` (from `solved = total ⇔ success`, incl. the
@@ -15,18 +16,34 @@ What is proved here (model: `Model/Constraint.lean` for `fitness()`, `Model/Emit
                                   consequent of an implication; DistanceAware: all values 1.0 ⇔ success)
 * `C02_rep_bounds_fitness`        the same for `RepetitionBoundsConstraint`, and success ⇔ all computed bounds hold
 * `C02_exception_not_satisfied`   a constraint whose `fitness()` raises keeps the tree from being emitted
-* `C02_accept_iff`                acceptance test passes ⇔ every constraint reported success
-* `C02_emit_sound`                emitted ⇒ every hard constraint holds in the documented meaning (`denote`,
-                                  via `C07_op_eq_denote`) and every computed repetition bound holds
+                                  (`…_float`: in binary64)
+* `C02_accept_iff`                exact arithmetic: acceptance test passes ⇔ every constraint reported success
+* `C02_emit_sound`                exact arithmetic: emitted ⇒ every hard constraint holds in the documented
+                                  meaning (`denote`, via `C07_op_eq_denote`) and every computed repetition bound holds
+* `C02_accept_only_if_float`      BINARY64, the GENERATED formula / class mean / per-constraint quotient /
+                                  comparison: `fitness >= 1.0` ⇒ no constraint raised and every one succeeded
+* `C02_accept_iff_float`          … and conversely (then the fitness is exactly 1.0)
+* `C02_emit_sound_float`          BINARY64: a tree yielded by `evaluateIndividual` (any state of the memo tables)
+                                  satisfies every hard constraint (`denote`) and every computed repetition bound
+* `C02_float_bound_is_needed`     the magnitude bound cannot be dropped: 3 constraints, one with 2^53
+                                  combinations of which one fails, ARE accepted by binary64
 
-PARTIAL in one respect, hence the name `C02_emit_sound` carries the arithmetic it is about: the
-acceptance test is modelled with EXACT rational arithmetic.  The real code computes the same formula in
-binary64.  The float side is covered by (a) C03's theorems for the generated formula (all satisfied ⇒
-exactly 1.0), (b) `C02_float_formula_agrees_on_table` (a `decide +kernel` TEST on a finite table that the
-generated binary64 formula takes the same accept/reject decision as the exact one), (c) the per-run
-differential of the real `Evaluator.evaluate_individual` against this model (harness/props/c02.py).
-A proof of the converse direction in `Model/Float53.lean` needs monotonicity of `rnd`, which that model
-does not provide yet; it is not claimed.
+BOUNDS of the binary64 theorems: with `h`, `r` the numbers of hard / repetition-bounds constraints and `2^B` a
+bound on every per-constraint denominator (`total`; number of combinations of a comparison; number of
+repetition groups): `(h + r) * 2^B ≤ 2^50` (e.g. `h + r ≤ 2^25`, totals `≤ 2^25`).  No soft constraints
+(`s = 0`), `expected_fitness = 1.0`.  The float model has no subnormals / overflow; every value here is 0
+or lies in `[2^-101, 2^53]` (quotients `≥ 1/total`, means `≥ 1/(total·len)`), far inside the normal range.
+
+How the float proof goes (Proofs/Float53Mono.lean, Proofs/EmitFloat.lean): `rnd` never moves a value across
+a double (`toRat_rnd_le_repr`: `x ≤ K·2^E`, `K < 2^53` ⇒ `rnd x ≤ K·2^E`) and changes a value by at most the
+factor `1 ± 2^-53` (`toRat_rnd_le_mul`).  A constraint that did not succeed scores `rnd(s/t) ≤ 1 - 2^-B`; the
+running sum after `k` additions stays `≤ k` resp. `≤ k - 2^-B` once the defective value (or a skipped, raising
+constraint) went in — these bounds are doubles, so nothing accumulates; the remaining four roundings (mean,
+`* len`, `+`, `/ (h + r)`) cost `(1 + 2^-53)^4`, less than the gap `2^-B / (h + r) ≥ 2^-50`.  CPython's
+compensated `sum` over values 0.0/1.0 is shown exact (`pySum_bools`).
+
+These helper files import single Mathlib tactic modules (Linarith, Positivity, Ring, NormNum, FieldSimp);
+models and drivers stay Mathlib-free.
 
 Every `theorem` in this file is an obligation audited with `#print axioms`.
 -/
@@ -103,8 +120,7 @@ theorem C02_accept_iff (hard rep : List (Option Fit)) (hh : AllWf hard) (hr : Al
       rw [hsplit]; grind
     rw [heq]
     have : (((hard.length + rep.length : Nat)) : Rat) / (((hard.length + rep.length : Nat)) : Rat) = 1 := by grind
-    rw [this]
-    exact Rat.le_refl
+    exact this ▸ Rat.le_refl
 
 /-- a constraint whose evaluation raises (nothing is added for it) is not satisfied: the tree is not
     emitted -/
